@@ -294,6 +294,8 @@ def _const_val(e):
             return a - b
         if e[1] == "Mul":
             return a * b
+        if not (_is_float(e[2]) or _is_float(e[3])):
+            return Fraction(int(a) // int(b)) if b != 0 and a.denominator == 1 and b.denominator == 1 else None
         return a / b if b != 0 else None
     if e[0] == "const" and e[2] in ("f64", "f32", "u8", "u16", "u32", "u64", "usize", "i32", "i64", "isize", "{float}", "{integer}"):
         try:
@@ -343,9 +345,28 @@ def _fr(v):
     return str(v.numerator) if v.denominator == 1 else "%d/%d" % (v.numerator, v.denominator)
 
 
+def _is_float(e):
+    k = e[0]
+    if k == "const":
+        return e[2] in ("f64", "f32")
+    if k == "cast":
+        return e[1] in ("f64", "f32")
+    if k == "call":
+        return e[1].startswith("f64::") or e[1].startswith("f32::") or e[1].endswith("as_secs_f64") or e[1].endswith("::ms_to_s")
+    if k == "bin":
+        return _is_float(e[2]) or _is_float(e[3])
+    return False
+
+
 def _prod(e, consts):
+    v0 = _const_val(e)
+    if v0 is not None:
+        return v0, [], []
     if e[0] == "cast":
         return _prod(e[2], consts)
+    if e[0] == "bin" and e[1] == "Div" and not (_is_float(e[2]) or _is_float(e[3])):
+        # integer division truncates: it is not the inverse of multiplication, keep it opaque
+        return Fraction(1), ["idiv(%s,%s)" % (acnf(e[2], consts), acnf(e[3], consts))], []
     if e[0] == "bin" and e[1] == "Mul":
         c1, n1, d1 = _prod(e[2], consts)
         c2, n2, d2 = _prod(e[3], consts)
